@@ -41,3 +41,4 @@ SPEC = {'id': 'C13',
                "commits racing with membership changes (store hook between OffsetCommit's check and write); implementation-side oracle on the real replies and "
                'stored offsets.'}
 SPEC['level_text'] += " The harness's oracle keeps its own ground truth that does not depend on the store image a new coordinator restores (members seen to be removed stay fenced until they join again; the highest generation the group was seen to have), and the generator regularly produces 'member expired by a tick / left -> failover before any survivor rejoins -> requests from the removed member and from survivors with their last-seen generation', so a lost or stale persist shows up as an accepted zombie request / a decreasing generation with a concrete replay."
+SPEC['assumptions'].insert(0, "every coordinator operation holds c.mu from its first read of group state to its last store write (this is what makes the model's step relation atomic per operation, schedules = operation sequences). CHECKED by the harness on the real code: a gating store wrapper intercepts every store call the coordinator makes (Metadata, PutConsumerGroup, FetchConsumerGroup, DeleteConsumerGroup, CommitConsumerOffset) during every operation of every history and tests whether c.mu is free; if it is, the schedule's inner operations are run to completion on the same group while that store call is parked and the failure lock-released-across-store-call:<op>:<storecall> is reported with the schedule as replay (plus whatever the property oracles then observe); where the lock is held the inner operations run after the outer one, which is the order the lock enforces. Windows for every outer kind x inner kind are generated in every quick run.")
